@@ -213,7 +213,8 @@ class SimLoop(base_events.BaseEventLoop):
     async def create_connection(self, protocol_factory, host=None, port=None, **kw):
         if self.net is None:
             raise SimHarnessError("no simulated network attached")
-        return await self.net.create_connection(protocol_factory, host, port, **kw)
+        net = getattr(self, "nets_by_host", {}).get(host, self.net)  # a second, separately simulated system (other host)
+        return await net.create_connection(protocol_factory, host, port, **kw)
 
     async def create_datagram_endpoint(
         self, protocol_factory, local_addr=None, remote_addr=None, **kw
